@@ -176,11 +176,25 @@ func (n *Net) Join(u int, ch string, namesSplit int, trailingSpace bool, colonFo
 		lines = append(lines, fmt.Sprintf(":%s 332 %s %s :%s", n.Server, me, ch, c.Topic))
 		lines = append(lines, fmt.Sprintf(":%s 333 %s %s someone 1600000000", n.Server, me, ch))
 	}
+	lines = append(lines, n.namesLines(c, namesSplit, trailingSpace, true)...)
+	lines = append(lines, fmt.Sprintf(":%s 366 %s %s :End of /NAMES list.", n.Server, me, ch))
+	n.RefreshViews()
+	return lines
+}
+
+// namesLines renders a NAMES reply (353 lines) for c. A NAMES reply shows the highest privilege each
+// member holds: after the client's own JOIN (fresh=true) that is all it knows; a later reply to a
+// NAMES request of the application's adds to what MODE lines have revealed since.
+func (n *Net) namesLines(c *NChan, namesSplit int, trailingSpace bool, fresh bool) []string {
+	me := n.MeNick()
+	var lines []string
 	ids := n.SortedMembers(c)
 	var names []string
 	for _, id := range ids {
 		mm := c.Members[id]
-		mm.Seen = map[byte]bool{}
+		if fresh {
+			mm.Seen = map[byte]bool{}
+		}
 		nm := n.Users[id].Nick
 		if h := highest(mm.True); h != 0 {
 			mm.Seen[h] = true
@@ -201,11 +215,19 @@ func (n *Net) Join(u int, ch string, namesSplit int, trailingSpace bool, colonFo
 		if trailingSpace {
 			t += " "
 		}
-		lines = append(lines, fmt.Sprintf(":%s 353 %s = %s :%s", n.Server, me, ch, t))
+		lines = append(lines, fmt.Sprintf(":%s 353 %s = %s :%s", n.Server, me, c.Name, t))
 	}
-	lines = append(lines, fmt.Sprintf(":%s 366 %s %s :End of /NAMES list.", n.Server, me, ch))
-	n.RefreshViews()
 	return lines
+}
+
+// ReplyNames answers a NAMES request for a channel the client is on.
+func (n *Net) ReplyNames(ch string, namesSplit int, trailingSpace bool) []string {
+	c, ok := n.Chans[ch]
+	if !ok || !n.ClientOn(ch) {
+		return []string{fmt.Sprintf(":%s 366 %s %s :End of /NAMES list.", n.Server, n.MeNick(), ch)}
+	}
+	lines := n.namesLines(c, namesSplit, trailingSpace, false)
+	return append(lines, fmt.Sprintf(":%s 366 %s %s :End of /NAMES list.", n.Server, n.MeNick(), ch))
 }
 
 // RefreshViews forgets what was revealed about users that no longer share a
